@@ -1,4 +1,4 @@
-// h_c18node drives the real proof path of a node: blocks with mixed main/para-chain transactions are
+// node part of h_c18 (arg "node"): drives the real proof path of a node: blocks with mixed main/para-chain transactions are
 // minted, delivered to a non-mining testnode through BlockChain.ProcessBlock (as a peer would), and for
 // every transaction BlockChain.ProcQueryTxMsg (-> getMultiLayerProofs, LoadParaTxByHeight, the stored
 // para-tx table) is asked for the inclusion proof, which is verified against the TxHash of the stored
@@ -10,7 +10,6 @@ package main
 
 import (
 	"bytes"
-	"encoding/hex"
 	"fmt"
 	"os"
 	"runtime"
@@ -27,15 +26,6 @@ import (
 
 	"verifharness/internal/gen"
 )
-
-var out = gen.NewOut()
-
-func hx(b []byte) string {
-	if len(b) == 0 {
-		return "-"
-	}
-	return hex.EncodeToString(b)
-}
 
 type node struct {
 	mock *testnode.Chain33Mock
@@ -82,13 +72,6 @@ func (n *node) mint(parent *types.Block, txs []*types.Transaction) (*types.Block
 func (n *node) deliver(b *types.Block) (bool, error) {
 	_, main, _, err := n.mock.GetBlockChain().ProcessBlock(false, &types.BlockDetail{Block: types.Clone(b).(*types.Block)}, "peer1", true, 0)
 	return main, err
-}
-
-func titleOf(tx *types.Transaction) string {
-	if t, ok := types.GetParaExecTitleName(string(tx.Execer)); ok {
-		return t
-	}
-	return types.MainChainName
 }
 
 func isSorted(txs []*types.Transaction) bool {
@@ -208,8 +191,8 @@ func (n *node) tx(execer string) *types.Transaction {
 	return tx
 }
 
-func main() {
-	defer out.Flush()
+// runNode is the "node" part of h_c18.
+func runNode() {
 	log15.Root().SetHandler(log15.DiscardHandler())
 	r := gen.New(gen.Seed()*7919 + 11)
 	n := newNode()
